@@ -72,7 +72,7 @@ def worker(args):
         for K in cfg.get("refute_bounds", [2, 3]):
             rcfg = dict(cfg)
             rcfg.update({"ground": K, "unroll": K, "timeout_ms": cfg.get("refute_timeout_ms", 8000), "both": False,
-                         "stop_after_failures": 12, "cvc5": False})
+                         "stop_after_failures": 12, "cvc5": False, "fuc_budget_s": cfg.get("refute_budget_s", 60)})
             rres = verify_fuc(key, rcfg)
             if rres.error:
                 out["refutations"].append({"bound": K, "error": rres.error})
